@@ -30,7 +30,8 @@ theorem lookup_none {β} {l : List (Key × β)} {k : Key} (h : lookup l k = none
   simp at this
 
 /-- what a reply must satisfy for client `c` -/
-def Reply.good (c : Client) (r : Reply) : Prop := r.id = c.id ∧ ∃ rq, r.q = some rq ∧ rq.same c.q = true
+def Reply.good (c : Client) (r : Reply) : Prop :=
+  r.id = c.id ∧ (c.nq ≠ 0 → ∃ rq, r.q = some rq ∧ rq.same c.q = true)
 
 theorem same_of_key {a b : Question} (h : a.ident = b.ident) : a.same b = true := by
   simp [Question.same, h]
@@ -61,7 +62,9 @@ theorem inv_init (cs : List Client) : Inv (init cs) := by
   constructor <;> simp [init]
 
 theorem ownReply_good (c : Client) (rc : Nat) (tc : Bool) : (ownReply c rc tc).good c := by
-  refine ⟨rfl, c.q, rfl, ?_⟩; simp [Question.same]
+  refine ⟨rfl, fun h => ⟨c.q, ?_, ?_⟩⟩
+  · simp [ownReply, h]
+  · simp [Question.same]
 
 theorem getElem?_set_some {α} {l : List α} {i j : Nat} {a x : α} (h : (l.set i a)[j]? = some x) :
     (i = j ∧ x = a) ∨ (i ≠ j ∧ l[j]? = some x) := by
@@ -160,7 +163,7 @@ theorem inv_cache_subset (s : St) (c' : List (Key × Entry)) (h : ∀ p, p ∈ c
 theorem cachedReply_good (s : St) (hi : Inv s) (c : Client) (e : Entry) (h : lookup s.cache c.key = some e) :
     (cachedReply c e).good c := by
   have := hi.cacheSound _ _ (lookup_some h)
-  refine ⟨rfl, e.q, rfl, ?_⟩
+  refine ⟨rfl, fun _ => ⟨e.q, rfl, ?_⟩⟩
   exact same_of_key this.1
 
 theorem inv_step_refuse (cfg : Cfg) (s : St) (i : Nat) (hi : Inv s) : Inv (step cfg s (.refuse i)) := by
@@ -195,7 +198,7 @@ theorem inv_step_wake (cfg : Cfg) (s : St) (i : Nat) (hi : Inv s) : Inv (step cf
           rw [hc] at hc'; cases hc'
           rw [hf] at hf'; cases hf'
           obtain ⟨mq, hmq, hn⟩ := hi.flightSound f fl m hf hr
-          refine ⟨rfl, mq, hmq, ?_⟩
+          refine ⟨rfl, fun _ => ⟨mq, hmq, ?_⟩⟩
           rw [hk] at hn
           exact same_of_key hn
     · exact hi
@@ -242,6 +245,9 @@ theorem inv_step_arrive (cfg : Cfg) (s : St) (i : Nat) (hi : Inv s) : Inv (step 
   simp only [step]
   split
   · next c hc hp =>
+    split
+    · -- not exactly one question: FORMERR
+      exact inv_finish s i c _ .init hc hp (.inl rfl) (by intro r h; cases h; exact ownReply_good ..) hi
     split
     · -- reject route
       refine inv_finish _ i c _ .init hc hp (.inl rfl) (by intro r h; cases h; exact ownReply_good ..) ?_
@@ -461,53 +467,74 @@ theorem inv_step_join (cfg : Cfg) (s : St) (i : Nat) (hi : Inv s) : Inv (step cf
 theorem same_iff {a b : Question} : a.same b = true ↔ a.ident = b.ident := by
   simp [Question.same]
 
-theorem dialSend_spec (cfg : Cfg) (hcfg : cfg.checkQuestion = true) (c : Client) (sch : Scheme) (a1 a2 : Att)
-    (cache : List (Key × Entry)) :
-    (∀ m, (dialSend cfg c sch a1 a2 cache).1 = .ok m →
-      m.id = c.id ∧ ∃ mq : Question, m.q = some mq ∧ mq.ident = c.q.ident) ∧
-    (∀ p, p ∈ (dialSend cfg c sch a1 a2 cache).2 →
+theorem acceptResp_spec (c : Client) (m : UpMsg) (cache : List (Key × Entry)) (mq : Question)
+    (hmq : m.q = some mq) (hs : mq.ident = c.q.ident) :
+    (∀ m', (acceptResp c m cache).1 = .ok m' →
+      m'.id = c.id ∧ ∃ mq : Question, m'.q = some mq ∧ mq.ident = c.q.ident) ∧
+    (∀ p, p ∈ (acceptResp c m cache).2 →
       p ∈ cache ∨ (p.1 = c.key ∧ p.2.q.ident = c.q.ident ∧ c.q.qclass = classIN)) := by
-  unfold dialSend
-  split
-  · exact ⟨(by intro m h; cases h), fun p hp => .inl hp⟩
-  · next m hm =>
-    rw [hcfg]
-    simp only [Bool.true_and]
-    cases hq : answersRequest c.q m
-    · simp only [Bool.not_false, if_true]
-      exact ⟨(by intro m h; cases h), fun p hp => .inl hp⟩
-    · simp only [Bool.not_true, Bool.false_eq_true, if_false]
-      split
-      · exact ⟨(by intro m h; cases h), fun p hp => .inl hp⟩
-      unfold answersRequest at hq
-      cases hmq : m.q with
-      | none => rw [hmq] at hq; cases hq
-      | some mq =>
-        rw [hmq] at hq
-        simp only at hq
-        have hs := same_iff.mp hq
-        refine ⟨?_, ?_⟩
-        · intro m' h
-          cases h
-          exact ⟨rfl, mq, rfl, hs.symm⟩
-        · intro p hp
-          simp only at hp
-          split at hp
-          · next hcond =>
-            rcases mem_insert hp with rfl | ⟨hp, _⟩
-            · have hcl : mq.qclass = classIN := by
-                simp only [Bool.and_eq_true, beq_iff_eq] at hcond
-                exact hcond.2
-              have hcl' : c.q.qclass = classIN := by
-                have := congrArg (fun t => t.2.2) hs
-                simp only [Question.ident] at this
-                rw [this]; exact hcl
-              exact .inr ⟨rfl, hs.symm, hcl'⟩
-            · exact .inl hp
-          · exact .inl hp
+  unfold acceptResp
+  refine ⟨?_, ?_⟩
+  · intro m' h
+    cases h
+    exact ⟨rfl, mq, hmq, hs⟩
+  · intro p hp
+    simp only [hmq] at hp
+    split at hp
+    · next hcond =>
+      rcases mem_insert hp with rfl | ⟨hp, _⟩
+      · have hcl : mq.qclass = classIN := by
+          simp only [Bool.and_eq_true, beq_iff_eq] at hcond
+          exact hcond.2
+        have hcl' : c.q.qclass = classIN := by
+          have := congrArg (fun t => t.2.2) hs
+          simp only [Question.ident] at this
+          rw [← this]; exact hcl
+        exact .inr ⟨rfl, hs, hcl'⟩
+      · exact .inl hp
+    · exact .inl hp
+
+theorem dialSend_spec (cfg : Cfg) (hcfg : cfg.checkQuestion = true) (c : Client) (rounds : List Round) :
+    ∀ (depth : Nat) (sch : Scheme) (cache : List (Key × Entry)),
+    (∀ m, (dialSend cfg c depth sch rounds cache).1 = .ok m →
+      m.id = c.id ∧ ∃ mq : Question, m.q = some mq ∧ mq.ident = c.q.ident) ∧
+    (∀ p, p ∈ (dialSend cfg c depth sch rounds cache).2 →
+      p ∈ cache ∨ (p.1 = c.key ∧ p.2.q.ident = c.q.ident ∧ c.q.qclass = classIN)) := by
+  induction rounds with
+  | nil =>
+    intro depth sch cache
+    unfold dialSend
+    exact ⟨(by intro m h; cases h), fun p hp => .inl hp⟩
+  | cons r rest ih =>
+    intro depth sch cache
+    unfold dialSend
+    split
+    · exact ⟨(by intro m h; cases h), fun p hp => .inl hp⟩
+    split
+    · exact ⟨(by intro m h; cases h), fun p hp => .inl hp⟩
+    · next m hm =>
+      rw [hcfg]
+      simp only [Bool.true_and]
+      cases hq : answersRequest c.q m
+      · simp only [Bool.not_false, if_true]
+        exact ⟨(by intro m h; cases h), fun p hp => .inl hp⟩
+      · simp only [Bool.not_true, Bool.false_eq_true, if_false]
+        split
+        · exact ⟨(by intro m h; cases h), fun p hp => .inl hp⟩
+        unfold answersRequest at hq
+        cases hmq : m.q with
+        | none => rw [hmq] at hq; cases hq
+        | some mq =>
+          rw [hmq] at hq
+          simp only at hq
+          have hs := (same_iff.mp hq).symm
+          split
+          · exact ih (depth + 1) _ cache
+          · exact acceptResp_spec c m cache mq hmq hs
+          · exact acceptResp_spec c _ cache mq rfl hs
 
 theorem inv_step_resolve (cfg : Cfg) (hcfg : cfg.checkQuestion = true) (s : St) (f : Nat) (sch : Scheme)
-    (a1 a2 : Att) (hi : Inv s) : Inv (step cfg s (.resolve f sch a1 a2)) := by
+    (rounds : List Round) (hi : Inv s) : Inv (step cfg s (.resolve f sch rounds)) := by
   simp only [step]
   split
   · next fl hf =>
@@ -516,8 +543,8 @@ theorem inv_step_resolve (cfg : Cfg) (hcfg : cfg.checkQuestion = true) (s : St) 
       split
       · next hff =>
         subst hff
-        obtain ⟨hd1, hd2⟩ := dialSend_spec cfg hcfg ‹Client› sch a1 a2 s.cache
-        generalize dialSend cfg ‹Client› sch a1 a2 s.cache = d at hd1 hd2 ⊢
+        obtain ⟨hd1, hd2⟩ := dialSend_spec cfg hcfg ‹Client› rounds 0 sch s.cache
+        generalize dialSend cfg ‹Client› 0 sch rounds s.cache = d at hd1 hd2 ⊢
         obtain ⟨r, cache'⟩ := d
         simp only at hd1 hd2 ⊢
         rename_i c
@@ -623,11 +650,11 @@ theorem inv_step_resolve (cfg : Cfg) (hcfg : cfg.checkQuestion = true) (s : St) 
   · exact hi
 
 theorem inv_step_refresh (cfg : Cfg) (hcfg : cfg.checkQuestion = true) (s : St) (i : Nat) (sch : Scheme)
-    (a1 a2 : Att) (hi : Inv s) : Inv (step cfg s (.refresh i sch a1 a2)) := by
+    (rounds : List Round) (hi : Inv s) : Inv (step cfg s (.refresh i sch rounds)) := by
   simp only [step]
   split
   · next c hc =>
-    obtain ⟨_, hd2⟩ := dialSend_spec cfg hcfg c sch a1 a2 s.cache
+    obtain ⟨_, hd2⟩ := dialSend_spec cfg hcfg c rounds 0 sch s.cache
     obtain ⟨h1, h2, h3, h4, h5, h6, h7, h8, h9, h10, h11, h12, h13⟩ := hi
     refine ⟨?_, h2, h3, h4, h5, h6, h7, h8, h9, h10, h11, h12, h13⟩
     intro k e hm
@@ -661,11 +688,11 @@ theorem inv_step (cfg : Cfg) (hcfg : cfg.checkQuestion = true) (s : St) (a : Act
   | arrive i => exact inv_step_arrive cfg s i hi
   | join i => exact inv_step_join cfg s i hi
   | refuse i => exact inv_step_refuse cfg s i hi
-  | resolve f sch a1 a2 => exact inv_step_resolve cfg hcfg s f sch a1 a2 hi
+  | resolve f sch rounds => exact inv_step_resolve cfg hcfg s f sch rounds hi
   | wake i => exact inv_step_wake cfg s i hi
   | evict k => exact inv_step_evict cfg s k hi
   | respell k sp => exact inv_step_respell cfg s k sp hi
-  | refresh i sch a1 a2 => exact inv_step_refresh cfg hcfg s i sch a1 a2 hi
+  | refresh i sch rounds => exact inv_step_refresh cfg hcfg s i sch rounds hi
 
 theorem inv_run (cfg : Cfg) (hcfg : cfg.checkQuestion = true) (as : List Act) :
     ∀ s, Inv s → Inv (run cfg s as) := by
